@@ -880,6 +880,7 @@ def run(ctx: Ctx) -> None:
 
 _EP = "algos/evaluation_problem.py"
 WITNESSES = [
+    {"name": "seeded-C01-12", "file": "core/mdo_functions/mdo_linear_function.py", "old": "\nfrom copy import deepcopy\nfrom numbers import Number\nfrom typing import TYPE_CHECKING\nfrom typing import Any\n\nfrom numpy import array\nfrom numpy import multiply\nfrom numpy import ndarray\nfrom numpy import where\n\nfrom gemseo.core.mdo_functions.mdo_function import MDOFunction\nfrom gemseo.core.mdo_functions.mdo_function import OutputType\nfrom gemseo.utils.compatibility.scipy import array_classes\nfrom gemseo.utils.compatibility.scipy import get_row\nfrom gemseo.utils.compatibility.scipy import sparse_classes\n\nif TYPE_CHECKING:\n    from collections.abc import Sequence\n\n    from scipy.sparse import csr_matrix\n\n    from gemseo.algos.design_space import DesignSpace\n    from gemseo.typing import NumberArray\n    from gemseo.typing import SparseOrDenseRealArray\n\n\nclass MDOLinearFunction(MDOFunction):\n    r\"\"\"Linear multivariate function defined by.\n\n    * a matrix :math:`A` of first-order coefficients\n      :math:`(a_{ij})_{\\substack{i = 1, \\dots m \\\\ j = 1, \\dots n}}`\n    * and a vector :math:`b` of zero-order coefficients :math:`(b_i)_{i = 1, \\dots m}`\n\n    .. math::\n\n        F(x)\n        =\n        Ax + b\n        =\n        \\begin{bmatrix}\n            a_{11} & \\cdots & a_{1n} \\\\\n            \\vdots & \\ddots & \\vdots \\\\\n            a_{m1} & \\cdots & a_{mn}\n        \\end{bmatrix}\n        \\begin{bmatrix} x_1 \\\\ \\vdots \\\\ x_n \\end{bmatrix}\n        +\n        \\begin{bmatrix} b_1 \\\\ \\vdots \\\\ b_m \\end{bmatrix}.\n    \"\"\"\n\n    __initial_expression: str | None\n    \"\"\"The initially provided expression.\n\n    If ``None`` the expression is computed.\n    \"\"\"\n\n    def __init__(\n        self,\n        coefficients: SparseOrDenseRealArray,\n        name: str,\n        f_type: MDOFunction.FunctionType = MDOFunction.FunctionType.NONE,\n        input_names: Sequence[str] = (),\n        value_at_zero: OutputType = 0.0,\n        output_names: Sequence[str] = (),\n        expr: str | None = None,\n    ) -> None:\n        \"\"\"\n        Args:\n            coefficients: The coefficient matrix :math:`A` of the linear function.\n            value_at_zero: The value :math:`b` of the linear function output at zero.\n            expr: The expression of the function, if any.\n                If ``None``,\n                create an expression\n                from the coefficients and the value at zero.\n        \"\"\"  # noqa: D205, D212, D415\n        # Format the passed coefficients and value at zero\n        if isinstance(coefficients, sparse_classes):\n            coefficients = coefficients.tocsr()\n        self.coefficients = coefficients\n        output_dim, input_dim = self._coefficients.shape\n        self.value_at_zero = value_at_zero\n        self.__initial_expression = expr\n        if expr is None:\n            # Generate the arguments strings\n            new_input_names = self.__class__.generate_input_names(\n                input_dim, input_names\n            )\n            # Generate the expression string\n            if output_dim == 1:\n                expr = self._generate_1d_expr(new_input_names)\n            else:\n                expr = self._generate_nd_expr(new_input_names)\n        else:\n            new_input_names = input_names\n\n        super().__init__(\n            self._func_to_wrap,\n            name,\n            f_type=f_type,\n            jac=self._jac_to_wrap,\n            expr=expr,\n            input_names=new_input_names,\n            dim=output_dim,\n            output_names=output_names,\n        )\n\n    def _func_to_wrap(self, x_vect: NumberArray) -> OutputType:\n        \"\"\"Return the linear combination with an offset.\n\n        :math:`sum_{i=1}^n a_i * x_i + b`\n\n        Args:\n            x_vect: The design variables values.\n        \"\"\"\n        value = self._coefficients @ x_vect + self._value_at_zero\n        if value.size == 1:\n            value = value[0]\n        return value\n\n    def _jac_to_wrap(self, _: Any) -> NumberArray:\n        \"\"\"Set and return the coefficients.\n\n        If the function is scalar, the gradient of the function is returned as a\n        1d-array. If the function is vectorial, the Jacobian of the function is\n        returned as a 2d-array.\n\n        Args:\n            _: This argument is not used.\n        \"\"\"\n        if self._coefficients.shape[0] == 1 and isinstance(self._coefficients, ndarray):\n            return self._coefficients[0, :]\n        return self._coefficients\n\n    @property\n    def coefficients(self) -> NumberArray:\n        \"\"\"The coefficient matrix of the linear function.\n\n        This is the matrix :math:`A` in the expression :math:`y=Ax+b`.\n        \"\"\"\n        return self._coefficients\n\n    @coefficients.setter\n    def coefficients(self, coefficients: SparseOrDenseRealArray) -> None:\n        if isinstance(coefficients, array_classes) and coefficients.ndim == 2:\n            self._coefficients = coefficients\n        elif isinstance(coefficients, array_classes) and coefficients.ndim == 1:\n            self._coefficients = coefficients.reshape((1, -1))\n        else:\n            msg = (\n                \"Coefficients must be passed as a 2-dimensional \"\n                \"or a 1-dimensional ndarray.\"\n            )\n            raise ValueError(msg)\n\n    @property\n    def value_at_zero(self) -> NumberArray:\n        \"\"\"The value of the function at zero.\n\n        This is the vector :math:`b` in the expression :math:`y=Ax+b`.\n\n        Raises:\n            ValueError: If the value at zero is neither a ndarray nor a number.\n        \"\"\"\n        return self._value_at_zero\n\n    @value_at_zero.setter\n    def value_at_zero(self, value_at_zero: OutputType) -> None:\n        output_dim = self.coefficients.shape[0]  # N.B. the coefficients must be set\n        if isinstance(value_at_zero, ndarray) and value_at_zero.size == output_dim:\n            self._value_at_zero = value_at_zero.reshape(output_dim)\n        elif isinstance(value_at_zero, Number):\n            self._value_at_zero = array([value_at_zero] * output_dim)\n        else:\n            msg = \"Value at zero must be an ndarray or a number.\"\n            raise ValueError(msg)\n\n    def _generate_1d_expr(self, input_names: Sequence[str]) -> str:\n        \"\"\"Generate the literal expression of the linear function in scalar form.\n\n        Args:\n            input_names: The names of the inputs of the function.\n\n        Returns:\n            The literal expression of the linear function in scalar form.\n        \"\"\"\n        pattern = self.COEFF_FORMAT_1D\n        strings = []\n        # Build the expression of the linear combination\n        first_non_zero_index = -1\n        if isinstance(self._coefficients, ndarray):\n            iterable = enumerate(self._coefficients[0, :])\n        else:\n            self._coefficients: csr_matrix\n            iterable = zip(self._coefficients.indices, self._coefficients.data)\n\n        for index, coefficient in iterable:\n            if coefficient != 0.0:\n                if first_non_zero_index == -1:\n                    first_non_zero_index = index\n                # Add the monomial sign\n                if index == first_non_zero_index and coefficient < 0.0:\n                    # The first nonzero coefficient is negative.\n                    strings.append(\"-\")  # unary minus\n                elif index != first_non_zero_index and coefficient < 0.0:\n                    strings.append(\" - \")\n                elif index != first_non_zero_index and coefficient > 0.0:\n                    strings.append(\" + \")\n                # Add the coefficient value\n                if abs(coefficient) != 1.0:\n                    strings.append(f\"{pattern.format(abs(coefficient))}*\")\n                # Add argument string\n                strings.append(input_names[index])\n\n        # Add the offset expression\n        value_at_zero = pattern.format(self._value_at_zero[0])\n        if first_non_zero_index == -1:\n            # Constant function\n            strings.append(value_at_zero)\n        elif self._value_at_zero > 0.0:\n            strings.append(f\" + {value_at_zero}\")\n        elif self._value_at_zero < 0.0:\n            strings.append(f\" - {value_at_zero}\")\n\n        return \"\".join(strings)\n\n    def _generate_nd_expr(self, input_names: Sequence[str]) -> str:\n        \"\"\"Generate the literal expression of the linear function in matrix form.\n\n        Args:\n            input_names: The names of the inputs of the function.\n\n        Returns:\n            The literal expression of the linear function in matrix form.\n        \"\"\"\n        max_input_name_len = max(len(input_name) for input_name in input_names)\n        out_dim, in_dim = self._coefficients.shape\n        strings = []\n        for i in range(max(out_dim, in_dim)):\n            if i > 0:\n                strings.append(\"\\n\")\n            # matrix line\n            if i < out_dim:\n                if isinstance(self._coefficients, ndarray):\n                    ith_row = self._coefficients[i, :]\n                else:\n                    self._coefficients: csr_matrix\n                    ith_row = get_row(self._coefficients, i).toarray().flatten()\n\n                coefficients = (\n                    self.COEFF_FORMAT_ND.format(coefficient) for coefficient in ith_row\n                )\n                strings.append(f\"[{' '.join(coefficients)}]\")\n            else:\n                strings.append(\" \" + \" \".join([\" \" * 3] * in_dim) + \" \")\n            # vector line\n            strings.extend((\n                f\"[{input_names[i]}]\" if i < in_dim else \" \" * (max_input_name_len + 2),\n                \" + \" if i == 0 else \"   \",\n            ))\n            # value at zero\n            if i < out_dim:\n                strings.append(\n                    f\"[{self.COEFF_FORMAT_ND.format(self._value_at_zero[i])}]\"\n                )\n        return \"\".join(strings)\n\n    def __neg__(self) -> MDOLinearFunction:  # noqa:D102\n        return self.__class__(\n            -self._coefficients,\n            f\"-{self.name}\",\n            self.f_type,\n            self.input_names,\n            -self._value_at_zero,\n            expr=self.__initial_expression,\n        )\n\n    def offset(self, value: OutputType) -> MDOLinearFunction:  # noqa:D102\n        return self.__class__(\n            self._coefficients,\n            self.name,\n            self.f_type,\n            self.input_names,\n            self._value_at_zero + value,\n            expr=self.__initial_expression,\n        )\n\n    def restrict(\n        self, frozen_indexes: ndarray[int], frozen_values: NumberArray\n    ) -> MDOLinearFunction:\n        \"\"\"Build a restriction of the linear function.\n\n        Args:\n            frozen_indexes: The indexes of the inputs that will be frozen.\n            frozen_values: The values of the inputs that will be frozen.\n\n        Returns:\n            The restriction of the linear function.\n\n        Raises:\n            ValueError: If the frozen indexes and values have different shapes.\n        \"\"\"\n        if frozen_indexes.shape != frozen_values.shape:\n            msg = \"Arrays of frozen indexes and values must have same shape.\"\n            raise ValueError(msg)\n        active_indexes = array([\n            index\n            for index in range(self.coefficients.shape[1])\n            if index not in frozen_indexes\n        ])\n        frozen_coefficients = self.coefficients[:, frozen_indexes]\n        new_value_at_zero = frozen_coefficients @ frozen_values + self._value_at_zero\n        new_coefficients = self.coefficients[:, active_indexes]\n        return self.__class__(\n            new_coefficients,\n            f\"{self.name}_restriction\",\n            input_names=[self.input_names[i] for i in active_indexes],\n            value_at_zero=new_value_at_zero,\n            expr=self.__initial_expression,\n        )\n\n    def normalize(self, input_space: DesignSpace) -> MDOLinearFunction:\n        \"\"\"Create a linear function using a scaled input vector.\n\n        Args:\n            input_space: The input space.\n\n        Returns:\n            The scaled linear function.\n        \"\"\"\n        # Get normalization factors and shift\n        norm_policies = input_space.convert_dict_to_array(input_space.normalize)\n        norm_factors = where(\n            norm_policies,\n            input_space.get_upper_bounds() - input_space.get_lower_bounds(),\n            1.0,\n        )\n        shift = where(norm_policies, input_space.get_lower_bounds(), 0.0)\n\n        if isinstance(self.coefficients, sparse_classes):\n            coefficients = deepcopy(self.coefficients)\n            coefficients.data *= norm_factors[coefficients.indices]\n        else:\n            coefficients = multiply(self.coefficients, norm_factors)\n\n        value_at_zero = self.evaluate(shift)\n        function = MDOLinearFunction(\n            coefficients,\n            self.name,\n            self.f_type,\n            self.input_names,\n            value_at_zero,\n        )\n        function.expects_normalized_inputs = True\n", "new": "\nfrom numbers import Number\nfrom typing import TYPE_CHECKING\nfrom typing import Any\n\nfrom numpy import array\nfrom numpy import multiply\nfrom numpy import ndarray\nfrom numpy import where\n\nfrom gemseo.core.mdo_functions.mdo_function import MDOFunction\nfrom gemseo.core.mdo_functions.mdo_function import OutputType\nfrom gemseo.utils.compatibility.scipy import array_classes\nfrom gemseo.utils.compatibility.scipy import get_row\nfrom gemseo.utils.compatibility.scipy import sparse_classes\n\nif TYPE_CHECKING:\n    from collections.abc import Sequence\n\n    from scipy.sparse import csr_matrix\n\n    from gemseo.algos.design_space import DesignSpace\n    from gemseo.typing import NumberArray\n    from gemseo.typing import SparseOrDenseRealArray\n\n\nclass MDOLinearFunction(MDOFunction):\n    r\"\"\"Linear multivariate function defined by.\n\n    * a matrix :math:`A` of first-order coefficients\n      :math:`(a_{ij})_{\\substack{i = 1, \\dots m \\\\ j = 1, \\dots n}}`\n    * and a vector :math:`b` of zero-order coefficients :math:`(b_i)_{i = 1, \\dots m}`\n\n    .. math::\n\n        F(x)\n        =\n        Ax + b\n        =\n        \\begin{bmatrix}\n            a_{11} & \\cdots & a_{1n} \\\\\n            \\vdots & \\ddots & \\vdots \\\\\n            a_{m1} & \\cdots & a_{mn}\n        \\end{bmatrix}\n        \\begin{bmatrix} x_1 \\\\ \\vdots \\\\ x_n \\end{bmatrix}\n        +\n        \\begin{bmatrix} b_1 \\\\ \\vdots \\\\ b_m \\end{bmatrix}.\n    \"\"\"\n\n    __initial_expression: str | None\n    \"\"\"The initially provided expression.\n\n    If ``None`` the expression is computed.\n    \"\"\"\n\n    def __init__(\n        self,\n        coefficients: SparseOrDenseRealArray,\n        name: str,\n        f_type: MDOFunction.FunctionType = MDOFunction.FunctionType.NONE,\n        input_names: Sequence[str] = (),\n        value_at_zero: OutputType = 0.0,\n        output_names: Sequence[str] = (),\n        expr: str | None = None,\n    ) -> None:\n        \"\"\"\n        Args:\n            coefficients: The coefficient matrix :math:`A` of the linear function.\n            value_at_zero: The value :math:`b` of the linear function output at zero.\n            expr: The expression of the function, if any.\n                If ``None``,\n                create an expression\n                from the coefficients and the value at zero.\n        \"\"\"  # noqa: D205, D212, D415\n        # Format the passed coefficients and value at zero\n        if isinstance(coefficients, sparse_classes):\n            coefficients = coefficients.tocsr()\n        self.coefficients = coefficients\n        output_dim, input_dim = self._coefficients.shape\n        self.value_at_zero = value_at_zero\n        self.__initial_expression = expr\n        if expr is None:\n            # Generate the arguments strings\n            new_input_names = self.__class__.generate_input_names(\n                input_dim, input_names\n            )\n            # Generate the expression string\n            if output_dim == 1:\n                expr = self._generate_1d_expr(new_input_names)\n            else:\n                expr = self._generate_nd_expr(new_input_names)\n        else:\n            new_input_names = input_names\n\n        super().__init__(\n            self._func_to_wrap,\n            name,\n            f_type=f_type,\n            jac=self._jac_to_wrap,\n            expr=expr,\n            input_names=new_input_names,\n            dim=output_dim,\n            output_names=output_names,\n        )\n\n    def _func_to_wrap(self, x_vect: NumberArray) -> OutputType:\n        \"\"\"Return the linear combination with an offset.\n\n        :math:`sum_{i=1}^n a_i * x_i + b`\n\n        Args:\n            x_vect: The design variables values.\n        \"\"\"\n        value = self._coefficients @ x_vect + self._value_at_zero\n        if value.size == 1:\n            value = value[0]\n        return value\n\n    def _jac_to_wrap(self, _: Any) -> NumberArray:\n        \"\"\"Set and return the coefficients.\n\n        If the function is scalar, the gradient of the function is returned as a\n        1d-array. If the function is vectorial, the Jacobian of the function is\n        returned as a 2d-array.\n\n        Args:\n            _: This argument is not used.\n        \"\"\"\n        if self._coefficients.shape[0] == 1 and isinstance(self._coefficients, ndarray):\n            return self._coefficients[0, :]\n        return self._coefficients\n\n    @property\n    def coefficients(self) -> NumberArray:\n        \"\"\"The coefficient matrix of the linear function.\n\n        This is the matrix :math:`A` in the expression :math:`y=Ax+b`.\n        \"\"\"\n        return self._coefficients\n\n    @coefficients.setter\n    def coefficients(self, coefficients: SparseOrDenseRealArray) -> None:\n        if isinstance(coefficients, array_classes) and coefficients.ndim == 2:\n            self._coefficients = coefficients\n        elif isinstance(coefficients, array_classes) and coefficients.ndim == 1:\n            self._coefficients = coefficients.reshape((1, -1))\n        else:\n            msg = (\n                \"Coefficients must be passed as a 2-dimensional \"\n                \"or a 1-dimensional ndarray.\"\n            )\n            raise ValueError(msg)\n\n    @property\n    def value_at_zero(self) -> NumberArray:\n        \"\"\"The value of the function at zero.\n\n        This is the vector :math:`b` in the expression :math:`y=Ax+b`.\n\n        Raises:\n            ValueError: If the value at zero is neither a ndarray nor a number.\n        \"\"\"\n        return self._value_at_zero\n\n    @value_at_zero.setter\n    def value_at_zero(self, value_at_zero: OutputType) -> None:\n        output_dim = self.coefficients.shape[0]  # N.B. the coefficients must be set\n        if isinstance(value_at_zero, ndarray) and value_at_zero.size == output_dim:\n            self._value_at_zero = value_at_zero.reshape(output_dim)\n        elif isinstance(value_at_zero, Number):\n            self._value_at_zero = array([value_at_zero] * output_dim)\n        else:\n            msg = \"Value at zero must be an ndarray or a number.\"\n            raise ValueError(msg)\n\n    def _generate_1d_expr(self, input_names: Sequence[str]) -> str:\n        \"\"\"Generate the literal expression of the linear function in scalar form.\n\n        Args:\n            input_names: The names of the inputs of the function.\n\n        Returns:\n            The literal expression of the linear function in scalar form.\n        \"\"\"\n        pattern = self.COEFF_FORMAT_1D\n        strings = []\n        # Build the expression of the linear combination\n        first_non_zero_index = -1\n        if isinstance(self._coefficients, ndarray):\n            iterable = enumerate(self._coefficients[0, :])\n        else:\n            self._coefficients: csr_matrix\n            iterable = zip(self._coefficients.indices, self._coefficients.data)\n\n        for index, coefficient in iterable:\n            if coefficient != 0.0:\n                if first_non_zero_index == -1:\n                    first_non_zero_index = index\n                # Add the monomial sign\n                if index == first_non_zero_index and coefficient < 0.0:\n                    # The first nonzero coefficient is negative.\n                    strings.append(\"-\")  # unary minus\n                elif index != first_non_zero_index and coefficient < 0.0:\n                    strings.append(\" - \")\n                elif index != first_non_zero_index and coefficient > 0.0:\n                    strings.append(\" + \")\n                # Add the coefficient value\n                if abs(coefficient) != 1.0:\n                    strings.append(f\"{pattern.format(abs(coefficient))}*\")\n                # Add argument string\n                strings.append(input_names[index])\n\n        # Add the offset expression\n        value_at_zero = pattern.format(self._value_at_zero[0])\n        if first_non_zero_index == -1:\n            # Constant function\n            strings.append(value_at_zero)\n        elif self._value_at_zero > 0.0:\n            strings.append(f\" + {value_at_zero}\")\n        elif self._value_at_zero < 0.0:\n            strings.append(f\" - {value_at_zero}\")\n\n        return \"\".join(strings)\n\n    def _generate_nd_expr(self, input_names: Sequence[str]) -> str:\n        \"\"\"Generate the literal expression of the linear function in matrix form.\n\n        Args:\n            input_names: The names of the inputs of the function.\n\n        Returns:\n            The literal expression of the linear function in matrix form.\n        \"\"\"\n        max_input_name_len = max(len(input_name) for input_name in input_names)\n        out_dim, in_dim = self._coefficients.shape\n        strings = []\n        for i in range(max(out_dim, in_dim)):\n            if i > 0:\n                strings.append(\"\\n\")\n            # matrix line\n            if i < out_dim:\n                if isinstance(self._coefficients, ndarray):\n                    ith_row = self._coefficients[i, :]\n                else:\n                    self._coefficients: csr_matrix\n                    ith_row = get_row(self._coefficients, i).toarray().flatten()\n\n                coefficients = (\n                    self.COEFF_FORMAT_ND.format(coefficient) for coefficient in ith_row\n                )\n                strings.append(f\"[{' '.join(coefficients)}]\")\n            else:\n                strings.append(\" \" + \" \".join([\" \" * 3] * in_dim) + \" \")\n            # vector line\n            strings.extend((\n                f\"[{input_names[i]}]\" if i < in_dim else \" \" * (max_input_name_len + 2),\n                \" + \" if i == 0 else \"   \",\n            ))\n            # value at zero\n            if i < out_dim:\n                strings.append(\n                    f\"[{self.COEFF_FORMAT_ND.format(self._value_at_zero[i])}]\"\n                )\n        return \"\".join(strings)\n\n    def __neg__(self) -> MDOLinearFunction:  # noqa:D102\n        return self.__class__(\n            -self._coefficients,\n            f\"-{self.name}\",\n            self.f_type,\n            self.input_names,\n            -self._value_at_zero,\n            expr=self.__initial_expression,\n        )\n\n    def offset(self, value: OutputType) -> MDOLinearFunction:  # noqa:D102\n        return self.__class__(\n            self._coefficients,\n            self.name,\n            self.f_type,\n            self.input_names,\n            self._value_at_zero + value,\n            expr=self.__initial_expression,\n        )\n\n    def restrict(\n        self, frozen_indexes: ndarray[int], frozen_values: NumberArray\n    ) -> MDOLinearFunction:\n        \"\"\"Build a restriction of the linear function.\n\n        Args:\n            frozen_indexes: The indexes of the inputs that will be frozen.\n            frozen_values: The values of the inputs that will be frozen.\n\n        Returns:\n            The restriction of the linear function.\n\n        Raises:\n            ValueError: If the frozen indexes and values have different shapes.\n        \"\"\"\n        if frozen_indexes.shape != frozen_values.shape:\n            msg = \"Arrays of frozen indexes and values must have same shape.\"\n            raise ValueError(msg)\n        active_indexes = array([\n            index\n            for index in range(self.coefficients.shape[1])\n            if index not in frozen_indexes\n        ])\n        frozen_coefficients = self.coefficients[:, frozen_indexes]\n        new_value_at_zero = frozen_coefficients @ frozen_values + self._value_at_zero\n        new_coefficients = self.coefficients[:, active_indexes]\n        return self.__class__(\n            new_coefficients,\n            f\"{self.name}_restriction\",\n            input_names=[self.input_names[i] for i in active_indexes],\n            value_at_zero=new_value_at_zero,\n            expr=self.__initial_expression,\n        )\n\n    def normalize(self, input_space: DesignSpace) -> MDOLinearFunction:\n        \"\"\"Create a linear function using a scaled input vector.\n\n        Args:\n            input_space: The input space.\n\n        Returns:\n            The scaled linear function.\n        \"\"\"\n        # Get normalization factors and shift\n        norm_policies = input_space.convert_dict_to_array(input_space.normalize)\n        norm_factors = where(\n            norm_policies,\n            input_space.get_upper_bounds() - input_space.get_lower_bounds(),\n            1.0,\n        )\n        shift = where(norm_policies, input_space.get_lower_bounds(), 0.0)\n\n        # Create the function of the normalized inputs, then scale its coefficients.\n        function = MDOLinearFunction(\n            self.coefficients,\n            self.name,\n            self.f_type,\n            self.input_names,\n            self.evaluate(shift),\n        )\n        coefficients = function.coefficients\n        if isinstance(coefficients, sparse_classes):\n            # N.B. the coefficients are in CSR format: indices are column indices.\n            coefficients.data *= norm_factors[coefficients.indices]\n        else:\n            function.coefficients = multiply(coefficients, norm_factors)\n\n        function.expects_normalized_inputs = True\n", "expect": "1.8", "note": "MDOLinearFunction.normalize builds the normalized function on the original coeff"},
     {"name": "seeded-C01-10", "file": "utils/derivatives/finite_differences.py", "old": "from numpy import zeros\n\nfrom gemseo.core.parallel_execution.callable_parallel_execution import (\n    CallableParallelExecution,\n)\nfrom gemseo.utils.derivatives.approximation_modes import ApproximationMode\nfrom gemseo.utils.derivatives.base_gradient_approximator import BaseGradientApproximator\nfrom gemseo.utils.derivatives.error_estimators import EPSILON\nfrom gemseo.utils.derivatives.error_estimators import compute_best_step\n\n\nclass FirstOrderFD(BaseGradientApproximator):\n    r\"\"\"First-order finite differences approximator.\n\n    .. math::\n\n        \\frac{df(x)}{dx}\\approx\\frac{f(x+\\\\delta x)-f(x)}{\\\\delta x}\n    \"\"\"\n\n    _APPROXIMATION_MODE = ApproximationMode.FINITE_DIFFERENCES\n\n    _DEFAULT_STEP: ClassVar[float] = 1.0e-6\n\n    def _compute_parallel_grad(\n        self,\n        input_values: ndarray,\n        input_perturbations: ndarray,\n        step: float | ndarray,\n        **kwargs: Any,\n    ) -> ndarray:\n        n_perturbations = input_perturbations.shape[1]\n        if step is None:\n            step = self.step\n\n        if not isinstance(step, ndarray):\n            step = full(n_perturbations, step)\n\n        self._function_kwargs = kwargs\n        functions = [self._wrap_function] * (n_perturbations + 1)\n        parallel_execution = CallableParallelExecution(functions, **self._parallel_args)\n\n        perturbated_inputs = [\n            input_perturbations[:, perturbation_index]\n            for perturbation_index in range(n_perturbations)\n        ]\n        initial_and_perturbated_outputs = parallel_execution.execute([\n            input_values,\n            *perturbated_inputs,\n        ])\n\n        gradient = []\n        initial_output = initial_and_perturbated_outputs[0]\n        for perturbation_index in range(n_perturbations):\n            perturbated_output = initial_and_perturbated_outputs[perturbation_index + 1]\n            g_approx = (perturbated_output - initial_output) / step[perturbation_index]\n            gradient.append(g_approx.real)\n", "new": "from numpy import zeros\nfrom numpy.linalg import norm\n\nfrom gemseo.core.parallel_execution.callable_parallel_execution import (\n    CallableParallelExecution,\n)\nfrom gemseo.utils.derivatives.approximation_modes import ApproximationMode\nfrom gemseo.utils.derivatives.base_gradient_approximator import BaseGradientApproximator\nfrom gemseo.utils.derivatives.error_estimators import EPSILON\nfrom gemseo.utils.derivatives.error_estimators import compute_best_step\n\n\nclass FirstOrderFD(BaseGradientApproximator):\n    r\"\"\"First-order finite differences approximator.\n\n    .. math::\n\n        \\frac{df(x)}{dx}\\approx\\frac{f(x+\\\\delta x)-f(x)}{\\\\delta x}\n    \"\"\"\n\n    _APPROXIMATION_MODE = ApproximationMode.FINITE_DIFFERENCES\n\n    _DEFAULT_STEP: ClassVar[float] = 1.0e-6\n\n    def _compute_parallel_grad(\n        self,\n        input_values: ndarray,\n        input_perturbations: ndarray,\n        step: float | ndarray,\n        **kwargs: Any,\n    ) -> ndarray:\n        n_perturbations = input_perturbations.shape[1]\n        self._function_kwargs = kwargs\n        functions = [self._wrap_function] * (n_perturbations + 1)\n        parallel_execution = CallableParallelExecution(functions, **self._parallel_args)\n\n        perturbated_inputs = [\n            input_perturbations[:, perturbation_index]\n            for perturbation_index in range(n_perturbations)\n        ]\n        initial_and_perturbated_outputs = parallel_execution.execute([\n            input_values,\n            *perturbated_inputs,\n        ])\n\n        gradient = []\n        initial_output = initial_and_perturbated_outputs[0]\n        for perturbation_index in range(n_perturbations):\n            perturbated_output = initial_and_perturbated_outputs[perturbation_index + 1]\n            # The effective step is the distance between the two points.\n            g_approx = (perturbated_output - initial_output) / norm(\n                perturbated_inputs[perturbation_index] - input_values\n            )\n            gradient.append(g_approx.real)\n", "expect": "1.11", "note": "Parallel finite differences divide by the distance between the points instead of"},
     {"name": "zero-range-replaced-in-both-directions", "file": DS, "old": "        self._norm_factor = self.__upper_bounds_array - self.__lower_bounds_array\n", "new": "        self._norm_factor = self.__upper_bounds_array - self.__lower_bounds_array\n        self._norm_factor = where(self._norm_factor == 0.0, 1.0, self._norm_factor)\n", "expect": "1.6"},
     {"name": "drop-normalize_grad", "file": _EP, "old": "jac_seq = (ds.unnormalize_vect, function.jac, *args, ds.normalize_grad)", "new": "jac_seq = (ds.unnormalize_vect, function.jac, *args)", "expect": "1.1"},
